@@ -4,6 +4,7 @@
 import PasfmtModel.Proofs.ReconProps
 import PasfmtModel.Proofs.MlsBreaks
 import PasfmtModel.Proofs.CrlfFull
+import PasfmtModel.Proofs.LayoutFull
 
 namespace Pasfmt.C09
 
@@ -187,5 +188,17 @@ private def ok (s : String) : Bool := crlfOk Config.default (fun _ => false) s.t
 #guard !ok "begin\n  // pasfmt off\n  a   :=  1;\n  // pasfmt on\nend.\n" &&
   !agree "begin\n  // pasfmt off\n  a   :=  1;\n  // pasfmt on\nend.\n"
 end Tests
+
+/-- **Third clause, for the closed model of the whole formatter, decided per pair**: the same text with LF and with
+    CRLF line breaks are two layouts of the same tokens (the counters `FormattedTokens` derives from the whitespace
+    ignore CR: `fmtdata_crlf`), so whenever the premise of the layout theorem holds for the pair
+    (`layoutPremisesB cfg alnum sLf sCrlf`: in particular no token contains a line break - the scanner would give it
+    another text - and no verbatim token has one before it), both are formatted to the same bytes.  This is
+    `C06.C06_format_full_checked` at the pair; the `input_endings` stream evaluates the premise on every LF/CRLF pair
+    (`info_c06`) and compares both model outputs with the real formatter's. -/
+theorem C09_input_endings_full_checked (cfg : Config) (alnum : Bytes → Bool) (sLf sCrlf : Bytes)
+    (h : layoutPremisesB cfg alnum sLf sCrlf = true) :
+    ∃ out, formatFull cfg alnum sLf = some out ∧ formatFull cfg alnum sCrlf = some out :=
+  formatFull_layout_checked cfg alnum sLf sCrlf h
 
 end Pasfmt.C09
